@@ -30,6 +30,7 @@ Fixpoint of_scmd (c : scmd) : sx :=
   | SSetTypeAhead b => L [I 19%Z; of_bool b]
   | SHandlerAsk h b => L [I 20%Z; of_nat h; of_bool b]
   | SHandlerWait h => L [I 21%Z; of_nat h]
+  | SProcess => L [I 24%Z]
   | SConnect c k => L [I 22%Z; of_nat c; of_nat k]
   | SEmit c p => L [I 23%Z; of_nat c; I p]
   | SSetInputRequired b => L [I 12%Z; of_bool b]
